@@ -166,7 +166,42 @@ def h_matrices(c):
     c.prove("r.translation_column", And(*[eq(flat(r[i])[3], 0) for i in range(3)]))
 
 
+def h_reuse(c, n, kind):
+    """One transform object applied to two different trees (the usual situation inside a
+    Transforms pipeline / a dataset): the second tree must be mapped about ITS centre."""
+    from swcgeom.transforms import RotateZ, Scale, Translate
+
+    t1, a1 = sym_tree(c, n, extra=("w",))
+    t2, a2 = sym_tree(c, n, extra=("w",), tag="b")
+    centre = c.pick("centre", ["origin", "root"])
+    if kind == "scale":
+        s = [c.real("sx"), c.real("sy"), c.real("sz")]
+        f = Scale(*s, center=centre)
+    elif kind == "rotz":
+        th, co, si = c.angle("theta")
+        f = RotateZ(th, center=centre)
+    else:
+        d = [c.real("tx"), c.real("ty"), c.real("tz")]
+        f = Translate(*d, center=centre)
+    o1 = f(t1)
+    o2 = f(t2)
+    o1b = f(t1)
+    for a, out, tag in ((a1, o1, "first"), (a2, o2, "second"), (a1, o1b, "first_again")):
+        cen = [0, 0, 0] if centre == "origin" else _pts(a, 0)
+        if kind == "scale":
+            for j, k in enumerate("xyz"):
+                c.prove(f"reuse.{tag}.{k}", And(*[eq(o, cen[j] + s[j] * (i - cen[j])) for o, i in zip(col(out, k), a[k])]))
+        elif kind == "rotz":
+            _rotation_obligations(c, a, out, n, [0, 0, 1], (co, si), None if centre == "origin" else cen, f"reuse.{tag}")
+        else:
+            for j, k in enumerate("xyz"):
+                c.prove(f"reuse.{tag}.{k}", And(*[eq(o, i + d[j]) for o, i in zip(col(out, k), a[k])]))
+    c.output("x_out2", col(o2, "x"))
+
+
 HARNESSES = [
+    H("reuse", h_reuse, quick=[dict(n=2, kind=k) for k in ("scale", "rotz", "translate")], thorough=[dict(n=3, kind=k) for k in ("scale", "rotz", "translate")], functions=FUNCTIONS,
+      bounds="one transform instance applied to two independent symbolic trees (n<=2/3 nodes each) and again to the first"),
     H("translate", h_translate, quick=[dict(n=2)], thorough=[dict(n=3)], functions=FUNCTIONS, bounds="n<=2 quick / 3 thorough nodes; tx,ty,tz any reals; both centres"),
     H("scale", h_scale, quick=[dict(n=2)], thorough=[dict(n=3)], functions=FUNCTIONS, bounds="n<=2/3 nodes; sx,sy,sz any reals (non-zero for the inverse); centre origin/root/default(root)"),
     H("rotate_xyz", h_rotate_axis, quick=[dict(n=2, which=w) for w in "xyz"], thorough=[dict(n=3, which=w) for w in "xyz"], functions=FUNCTIONS,
